@@ -13,6 +13,7 @@ import (
 	"go/ast"
 	"go/parser"
 	"go/token"
+	"go/types"
 	"os"
 	"os/exec"
 	"path/filepath"
@@ -89,7 +90,8 @@ func parseEntries(s string) []entry {
 // buildOverlay maps harness files into the repository tree.
 func buildOverlay(lf *loadFlags, rels []string) (map[string][]byte, error) {
 	ov := map[string][]byte{}
-	vrtSrc, err := os.ReadFile(filepath.Join(lf.harnessDir, "vrt", "vrt.go"))
+	hdirs := strings.Split(lf.harnessDir, ",")
+	vrtSrc, err := os.ReadFile(filepath.Join(hdirs[0], "vrt", "vrt.go"))
 	if err != nil {
 		return nil, err
 	}
@@ -97,23 +99,26 @@ func buildOverlay(lf *loadFlags, rels []string) (map[string][]byte, error) {
 	_ = rels
 	// every harness file is overlaid (harnesses of one package may use exported
 	// helpers of another package's harness file)
-	err = filepath.Walk(lf.harnessDir, func(p string, info os.FileInfo, err error) error {
-		if err != nil || info.IsDir() || !strings.HasSuffix(p, ".go") || strings.HasSuffix(p, "_test.go") {
+	for _, hdir := range hdirs {
+		hdir := hdir
+		err = filepath.Walk(hdir, func(p string, info os.FileInfo, err error) error {
+			if err != nil || info.IsDir() || !strings.HasSuffix(p, ".go") || strings.HasSuffix(p, "_test.go") {
+				return nil
+			}
+			rel, _ := filepath.Rel(hdir, filepath.Dir(p))
+			if rel == "vrt" || rel == "." || strings.HasPrefix(rel, "_") {
+				return nil
+			}
+			b, err := os.ReadFile(p)
+			if err != nil {
+				return err
+			}
+			ov[filepath.Join(lf.repo, rel, "zz_verif_"+filepath.Base(p))] = b
 			return nil
-		}
-		rel, _ := filepath.Rel(lf.harnessDir, filepath.Dir(p))
-		if rel == "vrt" || rel == "." || strings.HasPrefix(rel, "_") {
-			return nil
-		}
-		b, err := os.ReadFile(p)
+		})
 		if err != nil {
-			return err
+			return nil, err
 		}
-		ov[filepath.Join(lf.repo, rel, "zz_verif_"+filepath.Base(p))] = b
-		return nil
-	})
-	if err != nil {
-		return nil, err
 	}
 	return ov, nil
 }
@@ -207,12 +212,12 @@ type request struct {
 }
 
 type response struct {
-	Entry  string                `json:"entry"`
-	Result *interp.ExploreResult `json:"result,omitempty"`
-	Err    string                `json:"err,omitempty"`
-	Ready  bool                  `json:"ready,omitempty"`
-	InitFailed []string          `json:"init_failed,omitempty"`
-	LoadS  float64               `json:"load_s,omitempty"`
+	Entry      string                `json:"entry"`
+	Result     *interp.ExploreResult `json:"result,omitempty"`
+	Err        string                `json:"err,omitempty"`
+	Ready      bool                  `json:"ready,omitempty"`
+	InitFailed []string              `json:"init_failed,omitempty"`
+	LoadS      float64               `json:"load_s,omitempty"`
 }
 
 func setup(lf *loadFlags) (*loaded, *interp.Engine, map[string]*ssa.Function, error) {
@@ -365,10 +370,10 @@ type workItem struct {
 }
 
 type workerProc struct {
-	id  int
-	cmd *exec.Cmd
-	in  *json.Encoder
-	out *json.Decoder
+	id    int
+	cmd   *exec.Cmd
+	in    *json.Encoder
+	out   *json.Decoder
 	stdin interface{ Close() error }
 }
 
@@ -630,6 +635,42 @@ func listMain(args []string) {
 	})
 }
 
+// methodsMain prints "name<TAB>signature" for every method of a named type of
+// a package of the repository (from go/types of the current tree).
+func methodsMain(args []string) {
+	fs := flag.NewFlagSet("methods", flag.ExitOnError)
+	repo := fs.String("repo", "/repo", "")
+	pkg := fs.String("pkg", "", "relative package dir")
+	typ := fs.String("type", "", "type name (empty: package level functions)")
+	fs.Parse(args)
+	cfg := &packages.Config{Mode: packages.NeedTypes | packages.NeedName | packages.NeedImports | packages.NeedDeps, Dir: *repo,
+		Env: append(os.Environ(), "GOFLAGS=-mod=mod", "GOPROXY=off", "GOSUMDB=off", "GOTOOLCHAIN=local", "CGO_ENABLED=0")}
+	pkgs, err := packages.Load(cfg, modPath+"/"+*pkg)
+	if err != nil || len(pkgs) != 1 || len(pkgs[0].Errors) > 0 {
+		fmt.Fprintln(os.Stderr, "load failed", err)
+		os.Exit(3)
+	}
+	scope := pkgs[0].Types.Scope()
+	if *typ == "" {
+		for _, n := range scope.Names() {
+			if f, ok := scope.Lookup(n).(*types.Func); ok {
+				fmt.Printf("%s\t%s\n", n, types.TypeString(f.Type(), func(p *types.Package) string { return p.Name() }))
+			}
+		}
+		return
+	}
+	obj := scope.Lookup(*typ)
+	if obj == nil {
+		fmt.Fprintln(os.Stderr, "no such type")
+		os.Exit(3)
+	}
+	ms := types.NewMethodSet(types.NewPointer(obj.Type()))
+	for i := 0; i < ms.Len(); i++ {
+		f := ms.At(i).Obj().(*types.Func)
+		fmt.Printf("%s\t%s\n", f.Name(), types.TypeString(f.Type(), func(p *types.Package) string { return p.Name() }))
+	}
+}
+
 func main() {
 	if len(os.Args) < 2 {
 		fmt.Fprintln(os.Stderr, "usage: gosym run|worker|concrete|list ...")
@@ -644,6 +685,8 @@ func main() {
 		concreteMain(os.Args[2:])
 	case "list":
 		listMain(os.Args[2:])
+	case "methods":
+		methodsMain(os.Args[2:])
 	default:
 		fmt.Fprintln(os.Stderr, "unknown command")
 		os.Exit(2)
